@@ -603,6 +603,170 @@ def _apply(kind, a, b):
 def f():
     g = _partial(_apply, 'k')
     return [g(a, b) for a, b in _PAIRS], A + B, list(_it.islice(_it.count(A), 2))
+---
+import collections
+from collections import namedtuple, deque, defaultdict
+_Pair = namedtuple('_Pair', 'left right')
+class _Best:
+    __slots__ = ('value', 'index')
+    def __init__(self):
+        self.value = None
+        self.index = -1
+    def offer(self, v, i):
+        if self.value is None or v < self.value:
+            self.value, self.index = v, i
+        return self
+def f():
+    p = _Pair(1, 'b')
+    q = p._replace(right='c')
+    best = _Best()
+    for i, v in enumerate([4, 2, 2, 7]):
+        best.offer(v, i)
+    dq = deque([1, 2, 3])
+    dq.appendleft(0)
+    x = dq.popleft()
+    dq.append(9)
+    groups = defaultdict(list)
+    for k, v in (('a', 1), ('b', 2), ('a', 3)):
+        groups[k].append(v)
+    counts = collections.Counter('abca')
+    od = collections.OrderedDict()
+    od['z'] = 1
+    od['a'] = 2
+    stack = [1]
+    seen = []
+    while stack:
+        n = stack.pop()
+        seen.append(n)
+        if n < 8:
+            stack.extend([2 * n, 2 * n + 1])
+    return (p.left, p.right, q, p == (1, 'b'), tuple(p), p._fields, best.value, best.index, x, list(dq), len(dq), dq[0], dict(groups), groups['zz'], sorted(counts.items()),
+            counts['a'], list(od), seen, a_b(*p))
+def a_b(a, b):
+    return '%s-%s' % (a, b)
+---
+import heapq
+import bisect
+def f():
+    h = []
+    for v in (5, 1, 4, 1, 3):
+        heapq.heappush(h, (v, str(v)))
+    out = [heapq.heappop(h) for _ in range(3)]
+    h2 = [9, 2, 7]
+    heapq.heapify(h2)
+    xs = [1, 3, 3, 7]
+    bisect.insort(xs, 3)
+    bisect.insort_left(xs, 0)
+    return out, h, h2[0], heapq.nsmallest(2, [4, 1, 3]), heapq.nlargest(1, [4, 1, 3]), bisect.bisect_left(xs, 3), bisect.bisect_right(xs, 3), bisect.bisect(xs, 100), xs, heapq.heappushpop(h2, 1), heapq.heapreplace(h2, 10), sorted(h2)
+---
+import functools
+import contextlib
+_LOG = []
+def _traced(fn):
+    @functools.wraps(fn)
+    def wrapper(*a, **k):
+        _LOG.append(('call', fn.__name__, a))
+        return fn(*a, **k)
+    return wrapper
+@_traced
+def _double(v):
+    return 2 * v
+@functools.lru_cache(maxsize=None)
+def _fib(n):
+    _LOG.append(('fib', n))
+    return n if n < 2 else _fib(n - 1) + _fib(n - 2)
+@contextlib.contextmanager
+def _flag(state, name):
+    state[name] = True
+    _LOG.append('enter')
+    try:
+        yield state
+    finally:
+        del state[name]
+        _LOG.append('exit')
+def f():
+    st = {}
+    with _flag(st, 'busy') as s:
+        inside = dict(s)
+    caught = None
+    try:
+        with _flag(st, 'again'):
+            raise ValueError('x')
+    except ValueError:
+        caught = dict(st)
+    return _double(4), _double.__name__, _fib(6), len([e for e in _LOG if e[0] == 'fib']), inside, st, caught, [e for e in _LOG if isinstance(e, str)]
+---
+def f():
+    def kind(v):
+        match v:
+            case 0:
+                return 'zero'
+            case 1 | 2:
+                return 'small'
+            case (a, b):
+                return 'pair %s %s' % (a, b)
+            case [first, *rest] if rest:
+                return 'seq %s +%d' % (first, len(rest))
+            case str() as s:
+                return 'text ' + s
+            case int(n) if n < 0:
+                return 'negative'
+            case None:
+                return 'none'
+            case {'k': val}:
+                return 'map %s' % val
+            case _:
+                return 'other'
+    return [kind(v) for v in (0, 2, (3, 4), [5, 6, 7], 'ab', -3, None, 9.5, [1], {'k': 8, 'z': 0})]
+---
+class Grid:
+    def __init__(self, n):
+        self.cells = [[0] * n for _ in range(n)]
+        self.n = n
+    def __getitem__(self, ij):
+        i, j = ij
+        return self.cells[i][j]
+    def __setitem__(self, ij, v):
+        i, j = ij
+        self.cells[i][j] = v
+    def __len__(self):
+        return self.n * self.n
+    def __call__(self, k):
+        return self.cells[k // self.n][k % self.n]
+    def __str__(self):
+        return 'Grid(%d)' % self.n
+    def __repr__(self):
+        return '<grid %d>' % self.n
+    def __enter__(self):
+        self.cells[0][0] = -1
+        return self
+    def __exit__(self, *exc):
+        self.cells[0][0] = 0
+        return False
+def f():
+    g = Grid(2)
+    g[0, 1] = 5
+    g[1, 0] += 2
+    with g as h:
+        inside = h[0, 0]
+    return g[0, 1], g[1, 0], len(g), g(1), str(g), repr(g), '%s|%r' % (g, g), '{} {!r}'.format(g, g), f'{g}', [g], inside, g[0, 0], bool(g), callable(g)
+---
+def f():
+    def counter():
+        n = 0
+        def bump(k=1):
+            nonlocal n
+            n += k
+            return n
+        return bump
+    c = counter()
+    c()
+    c(5)
+    rows = [[0] * 2] * 2
+    rows[0][0] = 7
+    d = dict.fromkeys('ab', [])
+    d['a'].append(1)
+    return c(), rows, d, -7 // 2, -7 % 3, int(-2.5), round(2.5), round(3.5), round(-0.5), divmod(-7, 2), [1, 2, 3][-5:2], list(range(10, 0, -3)), (1, 'a') < (1, 'b'), True + True, sorted([3, 1, 2])[::-1]
 '''
 
 
@@ -674,6 +838,18 @@ def interpreted(src):
 
 
 def same(a, b):
+    basic = (int, float, str, bytes, bool, type(None), complex, list, tuple, dict, set, frozenset)
+    if (type(a) not in basic and type(b) not in basic and not isinstance(a, basic) and not isinstance(b, basic)) and type(a).__name__ != 'GenList' and type(b).__name__ != 'GenList':
+        return repr(a) == repr(b)        # an instance of a class of the snippet: CPython's object and the interpreter's record print alike
+    if type(a).__name__ == type(b).__name__ and (type(a) not in basic or type(b) not in basic):
+        # a class of the snippet (or a namedtuple made by it): two incarnations of the same definition - compared by content / by repr
+        if isinstance(a, tuple) and isinstance(b, tuple):
+            return same(tuple(a), tuple(b))
+        if isinstance(a, dict) and isinstance(b, dict):
+            return same(dict(a), dict(b))
+        if isinstance(a, (list,)) and isinstance(b, (list,)):
+            return same(list(a), list(b))
+        return repr(a) == repr(b)
     if isinstance(a, float) and isinstance(b, float):
         return (a != a and b != b) or (a == b and math.copysign(1, a) == math.copysign(1, b))
     if type(a) != type(b) and not (isinstance(a, (list, tuple)) and isinstance(b, (list, tuple)) and type(a).__name__ in ('list', 'tuple', 'GenList') and type(b).__name__ in ('list', 'tuple', 'GenList') and isinstance(a, list) == isinstance(b, list)):
